@@ -52,7 +52,7 @@ package capnp
 //@ 	n := M(sElemCount(w))
 //@ 	switch sElemCode(w) {
 //@ 	case 1:
-//@ 		return (n + 7) / 8
+//@ 		return (n + 7) >> 3
 //@ 	case 7:
 //@ 		return 8 * (n + 1)
 //@ 	}
@@ -68,30 +68,31 @@ package capnp
 //@ func szOK(sz ObjectSize) bool { return M(sz.DataSize) <= 0xffff*8 }
 //@ func szBytes(sz ObjectSize) M { return M(sz.DataSize) + 8*M(sz.PointerCount) }
 //@ func wfStruct(p Struct) bool {
-//@ 	return p.seg == nil || (segOK(p.seg) && szOK(p.size) && M(p.off)+szBytes(p.size) <= M(len(p.seg.data)))
+//@ 	return szOK(p.size) && (p.seg == nil || (segOK(p.seg) && M(p.off)+szBytes(p.size) <= M(len(p.seg.data))))
 //@ }
 //@ func listBytes(l List) M {
 //@ 	if l.flags&isBitList != 0 {
-//@ 		return (M(l.length) + 7) / 8
+//@ 		return (M(l.length) + 7) >> 3
 //@ 	}
 //@ 	return M(l.length) * szBytes(l.size)
 //@ }
+//@ // list flags: composite and bit are exclusive; a bit list has no element size
+//@ func lfOK(l List) bool {
+//@ 	return l.flags == 0 || l.flags == isCompositeList || (l.flags == isBitList && l.size.DataSize == 0 && l.size.PointerCount == 0)
+//@ }
 //@ func wfListB(l List) bool {
-//@ 	return l.seg == nil || (segOK(l.seg) && szOK(l.size) && M(l.off)+listBytes(l) <= M(len(l.seg.data)) &&
-//@ 		(l.flags&isCompositeList == 0 || l.off >= 8))
+//@ 	return szOK(l.size) && lfOK(l) && (l.seg == nil || (segOK(l.seg) && M(l.off)+listBytes(l) <= M(len(l.seg.data)) &&
+//@ 		(l.flags&isCompositeList == 0 || l.off >= 8)))
 //@ }
 //@ func wfList(l List) bool { return wfListB(l) && (l.seg == nil || l.length >= 0) }
 //@ func wfPtr(p Ptr) bool {
-//@ 	if p.seg == nil {
-//@ 		return true
-//@ 	}
 //@ 	switch p.flags.ptrType() {
 //@ 	case structPtrType:
 //@ 		return wfStruct(p.Struct())
 //@ 	case listPtrType:
 //@ 		return wfList(p.List())
 //@ 	}
-//@ 	return segOK(p.seg)
+//@ 	return p.seg == nil || segOK(p.seg)
 //@ }
 //@ end
 
